@@ -7,5 +7,6 @@ CONSTANTS
   Depth = 14
   GCLag = 1
   Deviation = "none"
+  GCMode = "trimmed"
 INVARIANT Emit
 CHECK_DEADLOCK FALSE
